@@ -338,7 +338,7 @@ fn live_body(senders: usize, self_send: bool, drain_and_wait: bool) -> vsched::B
 // ---------------------------------------------------------------------------------------------
 
 #[cfg(not(feature = "alt"))]
-fn reentrant_body(_drain_inside: bool) -> vsched::Body {
+fn reentrant_body(_mode: u8) -> vsched::Body {
     crate::common::wrong_build()
 }
 
@@ -354,11 +354,14 @@ mod reent {
         Plain(u32),
         Nested(u32, ActorCell, u32, Arc<Mutex<Vec<String>>>),
         DrainInside(u32, ActorCell, Arc<Mutex<Vec<String>>>),
+        /// the boxing fails (the sender is admitted, then has nothing to enqueue); with `true` it first calls
+        /// drain() from inside box_message, so the drainer leaves the marker to exactly this sender
+        Fails(u32, ActorCell, bool, Arc<Mutex<Vec<String>>>),
     }
     impl RMsg {
         pub fn id(&self) -> u32 {
             match self {
-                RMsg::Plain(n) | RMsg::Nested(n, ..) | RMsg::DrainInside(n, ..) => *n,
+                RMsg::Plain(n) | RMsg::Nested(n, ..) | RMsg::DrainInside(n, ..) | RMsg::Fails(n, ..) => *n,
             }
         }
     }
@@ -372,6 +375,13 @@ mod reent {
                 RMsg::DrainInside(_, target, log) => {
                     let r = target.drain();
                     log.lock().unwrap().push(format!("drain-inside={}", r.is_ok()));
+                }
+                RMsg::Fails(_, target, drain_first, log) => {
+                    if *drain_first {
+                        let r = target.drain();
+                        log.lock().unwrap().push(format!("drain-inside={}", r.is_ok()));
+                    }
+                    return Err(BoxedDowncastErr);
                 }
                 RMsg::Plain(_) => {}
             }
@@ -408,8 +418,9 @@ mod reent {
 }
 
 #[cfg(feature = "alt")]
-fn reentrant_body(drain_inside: bool) -> vsched::Body {
+fn reentrant_body(mode: u8) -> vsched::Body {
     use reent::*;
+    let drain_inside = mode == 1;
     Arc::new(move || {
         Box::pin(async move {
             let log = Arc::new(Mutex::new(Vec::new()));
@@ -420,7 +431,12 @@ fn reentrant_body(drain_inside: bool) -> vsched::Body {
             let (a1, l1) = (a.clone(), log.clone());
             ss.push(vsched::spawn("sender", async move {
                 let call = vsched::call_stamp();
-                let m = if drain_inside { RMsg::DrainInside(1, a1.get_cell(), l1) } else { RMsg::Nested(1, a1.get_cell(), 50, l1) };
+                let m = match mode {
+                    1 => RMsg::DrainInside(1, a1.get_cell(), l1),
+                    2 => RMsg::Fails(1, a1.get_cell(), true, l1),
+                    3 => RMsg::Fails(1, a1.get_cell(), false, l1),
+                    _ => RMsg::Nested(1, a1.get_cell(), 50, l1),
+                };
                 let r = a1.cast(m);
                 (call, 1u32, r.is_ok())
             }));
@@ -540,8 +556,8 @@ pub fn plan(tier: &str) -> Plan {
     }
     // sends and drains issued re-entrantly while a message is being boxed (custom Message::box_message: only
     // possible in ractor's cluster build, so these run on the alt build of the harness)
-    for drain_inside in [false, true] {
-        units.push(crate::common::alt_unit(format!("alt/reentrant/{}", if drain_inside { "drain-while-boxing" } else { "send-while-boxing" }), live_cfg.clone(), Some(lb + 1), reentrant_body(drain_inside), 4));
+    for (mode, name) in [(0u8, "send-while-boxing"), (1, "drain-while-boxing"), (2, "drain-while-boxing-then-boxing-fails"), (3, "boxing-fails")] {
+        units.push(crate::common::alt_unit(format!("alt/reentrant/{name}"), live_cfg.clone(), Some(lb + 1), reentrant_body(mode), 4));
     }
     Plan {
         property: "C07",
